@@ -41,6 +41,8 @@ def do_call(obj, call):
             elif o[0] == "tell":
                 r = obj.tell()
         return r
+    if op == "stream_step":
+        return obj.stream_step()
     if op == "partial_runs":
         return obj.partial_runs(call[1], call[2], call[3])
     if op == "range":
@@ -102,9 +104,11 @@ def main():
         print(f"{'MATCH' if ok else 'MISMATCH'} value {res!r} expected {exp['value']!r}")
         return 0 if ok else 1
     if "len" in exp and len(res) != exp["len"]:
-        if not ("min_len" in exp and exp["min_len"] <= len(res) <= exp.get("max_len", exp["len"])):
-            print(f"MISMATCH length {len(res)} expected {exp['len']}")
-            return 1
+        print(f"MISMATCH length {len(res)} expected {exp['len']}")
+        return 1
+    if "min_len" in exp and not (exp["min_len"] <= len(res) <= exp["max_len"]):
+        print(f"MISMATCH length {len(res)} outside [{exp['min_len']}, {exp['max_len']}]")
+        return 1
     for j, v in exp.get("bytes", []):
         if j >= len(res) or res[j] != v:
             got = res[j] if j < len(res) else None
